@@ -130,6 +130,21 @@ def dedupe(terms):
     return out
 
 
+def formula_string(terms):
+    """a formula string for a term list (a lone numeric literal other than 1 is not a valid term of a formula string)"""
+    parts = []
+    for t in terms:
+        if all(m == "literal" for _, m in t):
+            if "1" not in parts:
+                parts.append("1")
+            continue
+        parts.append(":".join(x for x, m in t))
+    rhs = " + ".join(p for p in parts if p != "1")
+    if "1" in parts:
+        return ("1 + " + rhs) if rhs else "1"
+    return "0 + " + rhs if rhs else "0"
+
+
 def terms_coq(terms):
     return clist(clist(f"Build_factor {cstr(x)} {'FLit' if m == 'literal' else 'FLookup'}" for x, m in t) for t in terms)
 
